@@ -94,9 +94,25 @@ def _exec_chunk(args):
     return ('ok', n)
 
 
+DEVS_USED = set()
+
+
+def devs_file():
+    """file listing the known-defect deviations the trace specs may use (open findings only)"""
+    p = os.path.join(os.environ.get('VERIF_TMP', '/tmp'), 'verif-devs-%d.ndjson' % os.getpid())
+    with open(p, 'w') as f:
+        for k in load_known():
+            if k.get('status') == 'open' and k.get('deviation') and not os.environ.get('VERIF_NO_DEVS'):
+                f.write(json.dumps({'dev': k['deviation']}) + '\n')
+    return p
+
+
 def validate_trace(path, wd, timeout=600, module='BusTrace.tla', cfg='BusTrace.cfg'):
     """returns None if accepted, else the 1-based rejected line number"""
-    rc, out = tlc(wd, module, cfg, timeout, env={'TRACE': path}, workers=1)
+    rc, out = tlc(wd, module, cfg, timeout, env={'TRACE': path, 'VERIF_DEVS': devs_file()}, workers=1)
+    for m in re.finditer(r'"DEVS_USED", \{([^}]*)\}', out):
+        for d in re.findall(r'"([^"]+)"', m.group(1)):
+            DEVS_USED.add(d)
     if rc == 124:
         raise Broken('TLC timeout validating %s' % path)
     m = re.search(r'"REJECTED_AT", (\d+), (\d+)', out)
